@@ -142,6 +142,25 @@ Proof.
   subst ms. rewrite seq_forward_grid_flag by (apply ddf_member_grid_flag; auto). reflexivity.
 Qed.
 
+(* target that is NOT a lattice of the transform's domain: ImageTransformer passes grid = false (traced table below), and the
+   output is the pull-back by the composition of point maps for ANY member list and ANY three grids *)
+Theorem warp_sequence_any_target (pad : padmode) (ac : bool) (ms : list (fmember (K:=K))) (tg g src : gridf)
+    (img : list (list K)) (j : list K) :
+  warp_seq_out2 floorK pad ac ms false tg g src img j
+  = match gen_pts2 2 (cubeax ac) (cubeax ac) (gN 2 g) (gS 2 g) (gC 2 g) (gD 2 g) (gN 2 src) (gS 2 src) (gC 2 src) (gD 2 src)
+            (seq_point_map ms (gen_pts2 2 (cubeax ac) (cubeax ac) (gN 2 tg) (gS 2 tg) (gC 2 tg) (gD 2 tg) (gN 2 g) (gS 2 g) (gC 2 g) (gD 2 g)
+                                 (target_coord 2 ac tg j))) with
+    | [x; y] => grid_sample2 floorK pad ac img x y
+    | _ => 0
+    end.
+Proof. unfold warp_seq_out2. rewrite seq_forward_is_composition. reflexivity. Qed.
+
+(* the flag ImageTransformer.forward hands to the transform IS the answer of target.same_domain_as(transform.grid()) *)
+Theorem image_transformer_flag_traced :
+  forallb (fun e => Bool.eqb (fst e) (snd e)) gen_image_transformer_flag_table = true /\
+  (existsb fst gen_image_transformer_flag_table = true /\ existsb (fun e => negb (fst e)) gen_image_transformer_flag_table = true).
+Proof. repeat split; vm_compute; reflexivity. Qed.
+
 (* a linear first member (any target grid at all): the flag is irrelevant to it -- the traced forward(grid=True) of a linear
    transform is its forward() (translator structural check) -- so the same conclusion holds without any frame hypothesis *)
 Theorem warp_sequence_linear_first (pad : padmode) (ac : bool) (m : fmember (K:=K)) (r : list fmember)
